@@ -266,16 +266,42 @@ def maxHold (h : History) : Nat :=
       | none => acc
     | _ => acc) (0, [], 0)).2.2
 
-/-- The fault budget under which retransmit exhaustion cannot legitimately occur (`d` drops, every
-    packet delivered within `hold` rounds). A segment goes out at passes 0, thr, …, max·thr of its
-    connection's counter and the connection aborts at pass (max+1)·thr. The answer to a segment
-    emitted at pass p and held `h` rounds, whose answer is held `h` rounds too, is processed before
-    pass p + 2h + 2; a SYN is already one pass old when it first leaves (the counter is bumped before
-    the first drain), and before the F-C06-5 repair up to thr − 1 handshake passes carry over; every
-    drop costs thr passes. Hence: `2·hold + max 2 thr < (max + 1 − d)·thr`. -/
+/-- Segments an in-order receiver had to discard because they overtook an older segment of the same
+    flow: a packet that occupies sequence space (payload, SYN, FIN) delivered while an older such
+    packet of its flow is still on the wire. The receiver does no reassembly (documented design), so
+    each of these costs the sender a retransmission exactly like a drop. -/
+def overtakes (h : History) : Nat :=
+  (h.foldl (fun (acc : List (Nat × Packet) × Nat) e =>
+    let (wire, n) := acc
+    match e.1 with
+    | .egress =>
+      (wire ++ e.2.filterMap fun o => match o with
+        | .pkt id p => if p.udp.isSome then none else some (id, p)
+        | _ => none, n)
+    | .deliver id =>
+      match wire.lookup id with
+      | some p =>
+        let occ := fun (q : Packet) => !q.seg.payload.isEmpty || q.seg.flags.syn || q.seg.flags.fin
+        let older := wire.any fun q => q.1 < id && occ q.2 && q.2.src == p.src && q.2.dst == p.dst &&
+          q.2.seg.srcPort == p.seg.srcPort && q.2.seg.dstPort == p.seg.dstPort
+        (wire.filter (·.1 != id), if occ p && older then n + 1 else n)
+      | none => acc
+    | .drop id => (wire.filter (·.1 != id), n)
+    | _ => acc) ([], 0)).2
+
+/-- Effective losses: packets the wire dropped plus segments discarded because of reordering. -/
+def lossCount (h : History) : Nat := dropCount h + overtakes h
+
+/-- The fault budget under which retransmit exhaustion cannot legitimately occur (`d` effective
+    losses, every packet delivered within `hold` rounds). A segment goes out at passes 0, thr, …,
+    max·thr of its connection's counter and the connection aborts at pass (max+1)·thr. The answer to
+    a segment emitted at pass p and held `h` rounds, whose answer is held `h` rounds too, is processed
+    before pass p + 2h + 2; a SYN is already one pass old when it first leaves (the counter is bumped
+    before the first drain), and before the F-C06-5 repair up to thr − 1 handshake passes carry over;
+    every loss costs thr passes. Hence: `2·hold + max 2 thr < (max + 1 − d)·thr`. -/
 def withinBudget (cfg : Cfg) (h : History) : Bool :=
-  decide (dropCount h < cfg.retxMax) &&
-    decide (2 * maxHold h + max 2 cfg.retxThreshold < (cfg.retxMax + 1 - dropCount h) * cfg.retxThreshold)
+  decide (lossCount h < cfg.retxMax) &&
+    decide (2 * maxHold h + max 2 cfg.retxThreshold < (cfg.retxMax + 1 - lossCount h) * cfg.retxThreshold)
 
 /-- Did an application give up a handle (drop a stream / listener, cancel a connect)? The liveness
     oracle only speaks about histories in which both applications keep their handles. -/
